@@ -297,3 +297,54 @@ def expand_value_calls(mi, text: str, depth: int = 2) -> str:
             return node
 
     return ast.unparse(ast.fix_missing_locations(T().visit(tree)))
+
+
+def resolved_guard_facts(fn: ast.AST, cfg, node: ast.AST) -> list[tuple[str, bool]]:
+    """guard_facts as texts, after replacing single-definition locals by what they stand for (a hoisted condition
+    `ok = a and b; if ok:` yields the facts `a`, `b`) and splitting the result into conjuncts again."""
+    from .dataflow import resolved_text
+
+    out: list[tuple[str, bool]] = []
+    for t, pol in guard_facts(fn, node):
+        try:
+            txt = resolved_text(cfg, t, cfg.node_of(node))
+            e = ast.parse(txt, mode="eval").body
+        except Exception:
+            out.append((unparse(t), pol))
+            continue
+        for c, p in conjuncts(e, pol):
+            out.append((unparse(c), p))
+        if unparse(t) != txt:
+            out.append((unparse(t), pol))
+    return out
+
+
+_CFG_CACHE: dict[int, object] = {}
+
+
+def text_facts(fn: ast.AST, node: ast.AST) -> list[tuple[str, bool]]:
+    """The guards of `node` as (text, polarity): both as written and with single-definition locals resolved
+    (`resolved_guard_facts`).  Rules that look facts up by text use this so that a condition hoisted into a local, or
+    produced by inlining a predicate helper, is still found."""
+    from .cfg import CFG
+
+    key = id(fn)
+    cfg = _CFG_CACHE.get(key)
+    if cfg is None or getattr(cfg, "fn", None) is not fn:
+        try:
+            cfg = CFG(fn)  # type: ignore[arg-type]
+        except Exception:
+            return [(unparse(t), p) for t, p in guard_facts(fn, node)]
+        _CFG_CACHE[key] = cfg
+    plain = [(unparse(t), p) for t, p in guard_facts(fn, node)]
+    try:
+        res = resolved_guard_facts(fn, cfg, node)
+    except Exception:
+        res = []
+    seen = set()
+    out = []
+    for x in plain + res:
+        if x not in seen:
+            seen.add(x)
+            out.append(x)
+    return out
